@@ -14,15 +14,18 @@ From Coq Require Import List String.
 Import ListNotations.
 Open Scope string_scope.
 
-(* (package, function, ranged expression as reviewed, class): a map iteration of the inventory is matched
-   by package and function - the iteration may be rewritten inside its function, not moved out of it *)
+(* (package, type of the iterated map, where it was reviewed, class): a map iteration of the inventory is
+   matched by its package and the TYPE of the map it ranges over - the loop may be rewritten, its
+   variables renamed, the loop moved to another function of the package; a loop over a map of a type
+   not listed here is unclassified, and one more loop over a listed type is one too many for the
+   inventory obligation of C01 *)
 Definition map_range_classes : list (string * string * string * string) := [
-  ("catalog", "NewExchangeJSightSchema", "coreRules", "insert-only");
-  ("catalog", "ObjectBuilder.AddProperty", "types", "insert-only");
-  ("catalog/ser/openapi", "contentForVariousMediaTypes", "schemaObjectsMap", "into-json-map");
-  ("catalog/ser/openapi", "makeResponseHeaders", "sortedHeaders", "into-json-map");
-  ("catalog/ser/openapi", "newResponses", "sortedResponses", "into-json-map");
-  ("core", "JApiCore.buildUserTypes", "core.rules", "insert-only");
-  ("core", "JApiCore.getPropertiesNames", "m", "sorted-output");
-  ("core", "newPathVariablesSchema", "userTypes", "insert-only")
+  ("catalog", "map[string]schema.Rule", "NewExchangeJSightSchema: coreRules", "insert-only");
+  ("catalog", "map[string]ischema.Type", "ObjectBuilder.AddProperty: types", "insert-only");
+  ("catalog/ser/openapi", "map[openapi.mediaType][]openapi.schemaObject", "contentForVariousMediaTypes: schemaObjectsMap", "into-json-map");
+  ("catalog/ser/openapi", "map[string][]openapi.headerInfo", "makeResponseHeaders: sortedHeaders", "into-json-map");
+  ("catalog/ser/openapi", "map[openapi.responseCode][]*catalog.HTTPResponse", "newResponses: sortedResponses", "into-json-map");
+  ("core", "map[string]schema.Rule", "JApiCore.buildUserTypes: core.rules", "insert-only");
+  ("core", "map[string]ischema.Node", "JApiCore.getPropertiesNames: m", "sorted-output");
+  ("core", "map[string]*jschema.JSchema", "newPathVariablesSchema: userTypes", "insert-only")
 ].
